@@ -1,0 +1,14 @@
+//go:build verif
+
+package faults
+
+// VerifYield, when set, is called at named points of Set.Check so that an
+// external harness can force specific interleavings of concurrent callers. It
+// must be set before any concurrent use.
+var VerifYield func(point, op string, params Parameters)
+
+func verifYield(point, op string, params Parameters) {
+	if f := VerifYield; f != nil {
+		f(point, op, params)
+	}
+}
